@@ -353,13 +353,16 @@ func c02R5(c *Ctx) {
 	}
 }
 
-func c02R6(c *Ctx) {
+func c02R6(c *Ctx) { freshInputsRule(c, "C02.R6") }
+
+// freshInputsRule: shared by C02.R6 and C01.R7 (a predictable ephemeral voids the DH-based proof of key possession).
+func freshInputsRule(c *Ctx, rule string) {
 	P := c.P
 	fPriv := P.Field("keys", "X25519KeyPair", "Private")
 	fPub := P.Field("keys", "X25519KeyPair", "Public")
 	fEph := P.Field("transport", "dhState", "ephemeral")
 	if fPriv == nil || fPub == nil || fEph == nil {
-		c.Undecided("C02.R6", "keys.X25519KeyPair / transport.dhState.ephemeral", "fields not found")
+		c.Undecided(rule, "keys.X25519KeyPair / transport.dhState.ephemeral", "fields not found")
 		return
 	}
 	// (a) nobody outside package keys writes the key material of a handshake ephemeral
@@ -392,25 +395,25 @@ func c02R6(c *Ctx) {
 				}
 				if write {
 					nW++
-					c.Fail("C02.R6", "write:ephemeral-key@"+FuncName(fn), P.InstrPos(r), "the key material of a handshake's X25519 ephemeral is written outside keys.Generate: an ephemeral derived from anything the counterpart knows or can predict lets it compute the DH values that are supposed to prove key possession")
+					c.Fail(rule, "write:ephemeral-key@"+FuncName(fn), P.InstrPos(r), "the key material of a handshake's X25519 ephemeral is written outside keys.Generate: an ephemeral derived from anything the counterpart knows or can predict lets it compute the DH values that are supposed to prove key possession")
 				}
 			}
 		})
 	}
 	if nW == 0 {
-		c.OK("C02.R6", "write:ephemeral-key", "-", "no store to dhState.ephemeral / X25519KeyPair.Private in transport outside Generate")
+		c.OK(rule, "write:ephemeral-key", "-", "no store to dhState.ephemeral / X25519KeyPair.Private in transport outside Generate")
 	}
 	// (b) Generate dominates the successful return of the state-creating functions that use the ephemeral for DH
 	genID := hopID("keys", "X25519KeyPair", "Generate")
 	for _, fnName := range []string{"(*Server).ReplayPQDuplexFromCookie", "(*Client).clientHandshakeLocked", "(*Server).handlePQClientRequestHidden"} {
 		fn := P.Func("transport", fnName)
 		if fn == nil {
-			c.Undecided("C02.R6", "transport."+fnName, "function not found")
+			c.Undecided(rule, "transport."+fnName, "function not found")
 			continue
 		}
 		fs := newFailSet()
 		succ := 0
-		ok := walkAllOpts(c, "C02.R6", fn, PathOpts{MaxVisits: 2}, func(p *Path) {
+		ok := walkAllOpts(c, rule, fn, PathOpts{MaxVisits: 2}, func(p *Path) {
 			if !isSuccess(p) {
 				return
 			}
@@ -426,12 +429,12 @@ func c02R6(c *Ctx) {
 			}
 		})
 		if ok {
-			fs.report(c, "C02.R6", FuncName(fn), []string{"generate"}, P.Pos(fn.Pos()), fmt.Sprintf("ephemeral generated on all %d success paths", succ))
+			fs.report(c, rule, FuncName(fn), []string{"generate"}, P.Pos(fn.Pos()), fmt.Sprintf("ephemeral generated on all %d success paths", succ))
 		}
 	}
 	// (c) Generate fills Private from crypto/rand
 	if g := P.Func("keys", "(*X25519KeyPair).Generate"); g == nil {
-		c.Undecided("C02.R6", "keys.(*X25519KeyPair).Generate", "function not found")
+		c.Undecided(rule, "keys.(*X25519KeyPair).Generate", "function not found")
 	} else {
 		okv := false
 		for _, cs := range callSitesIn(g, false, "crypto/rand.Read") {
@@ -439,7 +442,7 @@ func c02R6(c *Ctx) {
 				okv = true
 			}
 		}
-		c.Check(okv, "C02.R6", FuncName(g)+"#entropy", P.Pos(g.Pos()), "Private filled by crypto/rand.Read", "Generate does not fill the private key from crypto/rand")
+		c.Check(okv, rule, FuncName(g)+"#entropy", P.Pos(g.Pos()), "Private filled by crypto/rand.Read", "Generate does not fill the private key from crypto/rand")
 	}
 	// (d) KEM randomness
 	n := 0
@@ -455,10 +458,10 @@ func c02R6(c *Ctx) {
 					okv = true
 				}
 			}
-			c.Check(okv, "C02.R6", fmt.Sprintf("rng:%s@%s", calleeFunc(cs.Common()).Name(), FuncName(fn)), P.InstrPos(cs), "draws from crypto/rand.Reader", "a KEM key pair / encapsulation of the handshake does not draw from crypto/rand.Reader")
+			c.Check(okv, rule, fmt.Sprintf("rng:%s@%s", calleeFunc(cs.Common()).Name(), FuncName(fn)), P.InstrPos(cs), "draws from crypto/rand.Reader", "a KEM key pair / encapsulation of the handshake does not draw from crypto/rand.Reader")
 		}
 	}
-	c.Floor("C02.R6", "KEM randomness call sites in live transport code", n, 4)
+	c.Floor(rule, "KEM randomness call sites in live transport code", n, 4)
 	// (e) session ids
 	if cs := P.Func("transport", "(*Server).createSessionFromHandshakeLocked"); cs != nil {
 		fSID := P.Field("transport", "HandshakeState", "sessionID")
@@ -468,7 +471,7 @@ func c02R6(c *Ctx) {
 				okv = true
 			}
 		}
-		c.Check(okv, "C02.R6", FuncName(cs)+"#session-id", P.Pos(cs.Pos()), "session id from crypto/rand", "session ids are not drawn from crypto/rand")
+		c.Check(okv, rule, FuncName(cs)+"#session-id", P.Pos(cs.Pos()), "session id from crypto/rand", "session ids are not drawn from crypto/rand")
 	}
 }
 
